@@ -18,3 +18,82 @@ for _o in (1, 4, 8, 10, 12):
              returns="opaque",
              ensures=[f"tri_rule_ok(result[0], result[1], {_o}, 1e-10)"],
              raises=[("Exception", "False", "only_if")])
+
+
+# ---- calculate_face_area: the fan triangulation from corner 0 covers EVERY corner (C05) -----------------------------------------------
+# area == fan(n - 2) with fan(0) = 0, fan(j + 1) = fan(j) + Q(corner 0, corner j + 1, corner j + 2), where Q is the quadrature sum of
+# the rule's weights times the Jacobian at the rule's points.  The Jacobian is an uninterpreted real function here (its own value
+# is exercised by the bounded stand-in); the rule tables are the real ones (obtained by the function itself just before the
+# definition point).  What this decides: no corner is skipped or used twice, the right weights meet the right points, for any number
+# of corners, both rules, every supported order and both coordinate inputs.
+from pyvc.contracts import inline, loop  # noqa: E402
+
+_A = "uxarray.grid.area."
+inline(_A + "get_gauss_quadratureDG", _A + "get_tri_quadratureDG")
+for _j in ("calculate_spherical_triangle_jacobian", "calculate_spherical_triangle_jacobian_barycentric"):
+    contract(_A + _j, trusted=True, props=["C05"],
+             params={"node1": "small(real, 3)", "node2": "small(real, 3)", "node3": "small(real, 3)", "dA": "real", "dB": "real"},
+             returns="real", ensures=["result == ufr('jac', node1, node2, node3, dA, dB)"],
+             notes="value of the Jacobian at one quadrature point: uninterpreted here")
+contract("uxarray.grid.coordinates._lonlat_rad_to_xyz", variant="point", trusted=True, props=["C05"],
+         params={"lon": "real", "lat": "real"}, returns="tuple(real, real, real)",
+         ensures=["result[0] == ufr('llx', lon, lat) and result[1] == ufr('lly', lon, lat) and result[2] == ufr('llz', lon, lat)"],
+         notes="caller-side abstraction of the proved conversion (contracts/coordinates.py)")
+
+
+def _node(k, ct):
+    if ct == "cartesian":
+        return f"[x[{k}], y[{k}], z[{k}]]"
+    return (f"[ufr('llx', deg2rad(x[{k}]), deg2rad(y[{k}])), ufr('lly', deg2rad(x[{k}]), deg2rad(y[{k}])), "
+            f"ufr('llz', deg2rad(x[{k}]), deg2rad(y[{k}]))]")
+
+
+_RULES = [("gaussian", o) for o in range(1, 11)] + [("triangular", o) for o in (1, 4, 8, 10, 12)]
+for _rule, _o in _RULES:
+    for _ct in ("spherical", "cartesian"):
+        _tri = f"{_node(0, _ct)}, {_node('j - 1 + 1', _ct)}, {_node('j - 1 + 2', _ct)}"
+        if _rule == "gaussian":
+            _Q = f"sum([sum([dW[p] * dW[q] * ufr('jac', {_tri}, dG[0][p], dG[0][q]) for q in range(len(dW))]) for p in range(len(dW))])"
+        else:
+            _Q = f"sum([dW[p] * ufr('jac', {_tri}, dG[p][0], dG[p][1]) for p in range(len(dW))])"
+        contract(_A + "calculate_face_area", props=["C05"], variant=f"{_rule},{_o},{_ct}",
+                 sizes=["n"],
+                 params={"x": "arr(real, n)", "y": "arr(real, n)", "z": "arr(real, n)", "quadrature_rule": repr(_rule), "order": repr(_o),
+                         "coords_type": repr(_ct)},
+                 returns="tuple(real, real)",
+                 ensures=["result[0] == fan(n - 2)"],
+                 loops={0: loop(counter="jj", invariants=["area == fan(jj)"])},
+                 asserts={"after:num_nodes = len(x)": [f"defrec fan(j) : real = ite(j <= 0, 0, fan(j - 1) + {_Q})"]},
+                 options={"callee_variants": {"uxarray.grid.coordinates._lonlat_rad_to_xyz": "point"}},
+                 raises=[("Exception", "False", "only_if")])
+
+
+# ---- get_all_face_area_from_coords: every face is integrated over exactly its own real corners, in order (C05) --------------------------
+# area[f] == A(corners of face f) where the corner arrays handed to calculate_face_area are node coordinate arrays gathered with
+# the first face_geometry[f] entries of row f - padding never reaches the integrator.  A(...) is the (summarised) value of
+# calculate_face_area as a function of the corner arrays and their number.
+_AREA_OF = "ufarr('face_area', {x}, {y}, {z}, {n})"
+contract(_A + "calculate_face_area", variant="caller_view", trusted=True, props=["C05"],
+         sizes=["m"], params={"x": "arr(real, m)", "y": "arr(real, m)", "z": "arr(real, m)", "quadrature_rule": "opaque", "order": "opaque",
+                              "coords_type": "opaque"},
+         returns="tuple(real, real)",
+         ensures=["result[0] == " + _AREA_OF.format(x="x", y="y", z="z", n="m")],
+         notes="caller-side abstraction: the area is a function of the corner arrays (rule / order / input kind fixed per call site)")
+
+for _dim in (2, 3):
+    _gx, _gy = ("x[face_nodes[f, 0:face_geometry[f]]]", "y[face_nodes[f, 0:face_geometry[f]]]")
+    _gz = "z[face_nodes[f, 0:face_geometry[f]]]" if _dim > 2 else "(" + _gx + " * 0.0)"
+    contract(_A + "get_all_face_area_from_coords", props=["C05"], variant=f"dim={_dim}",
+             sizes=["n_node", "n_face", "W"],
+             params={"x": "arr(real, n_node)", "y": "arr(real, n_node)", "z": "arr(real, n_node)", "face_nodes": "arr(int, n_face, W)",
+                     "face_geometry": "arr(int, n_face)", "dim": repr(_dim), "quadrature_rule": "opaque", "order": "opaque",
+                     "coords_type": "opaque"},
+             requires=["forall(0, n_face, lambda f: 0 <= face_geometry[f] and face_geometry[f] <= W)",
+                       "forall(0, n_face, 0, W, lambda f, t: implies(t < face_geometry[f], 0 <= face_nodes[f, t] and face_nodes[f, t] < n_node))"],
+             returns="tuple(arr(real, n_face), arr(real, n_face))",
+             ensures=["shape(result[0]) == (n_face,)",
+                      f"forall(0, n_face, lambda f: result[0][f] == " + _AREA_OF.format(x=_gx, y=_gy, z=_gz, n="face_geometry[f]") + ")"],
+             loops={0: loop(counter="fi", invariants=[
+                 "forall(0, fi, lambda f: area[f] == " + _AREA_OF.format(x=_gx, y=_gy, z=_gz, n="face_geometry[f]") + ")"])},
+             options={"callee_variants": {_A + "calculate_face_area": "caller_view"}},
+             raises=[("Exception", "False", "only_if")])
